@@ -131,17 +131,20 @@ def run_cases(chk, tag, cases, binary, header=HEADER, show_fn=None):
     answers = [parse_answer(x) for x in vlib.harness_run(binary, [c.line() for c in cases])]
     terms, idx = [], []
     skipped = []
+    crashed = []
     for i, (c, a) in enumerate(zip(cases, answers)):
         t = coq_term(c, a)
         if t is None or a['status'] == 9:
             skipped.append(i)
+            if a['status'] in (2, 9):
+                crashed.append((i, 4))     # code 4: the real interpreter panicked / crashed on this case
             continue
         terms.append(t)
         idx.append(i)
     bad, errors = vlib.coq_eval(tag, header, terms, '(fun c => c)', shard_size=250)
     if errors:
         raise vlib.Broken('model evaluation failed: ' + errors[0])
-    return answers, [(idx[i], cd) for i, cd in bad], skipped
+    return answers, [(idx[i], cd) for i, cd in bad] + crashed, skipped
 
 
 def engine_compare(binary, cases, engines=('jit', 'cl'), kind='mbuff', profile='debug'):
